@@ -58,8 +58,10 @@ def gen_history(rng, length, readonly_safe=False, valkeys=None, funcs=3):
             ops.append(["memoize", f, a, rng.choice(vk), rng.choice(OVERRIDES)])
         elif r < 0.42:
             ops.append(["read", f, a])
-        elif r < 0.50:
+        elif r < 0.47:
             ops.append(["get", f, a])
+        elif r < 0.50:
+            ops.append(["getmany", [[rng.randrange(funcs), rng.randrange(NARGS)] for _ in range(rng.randint(2, 5))]])
         elif r < 0.58:
             ops.append(["ismem", f, a])
         elif r < 0.68:
@@ -100,6 +102,8 @@ class Model:
             return ("present", e["v"]) if e else "absent"
         if k == "ismem":
             return (op[1], op[2]) in self.d
+        if k == "getmany":
+            return [((f, a) if (f, a) in self.d else None) for f, a in op[1]]
         if k == "forget_call":
             self.d.pop((op[1], op[2]), None)
             return None
@@ -183,6 +187,16 @@ def apply_backend(backend, refs, vals, op, model_before=None):
             return ("value", backend.read_result(m))
         if k == "ismem":
             return bool(backend.is_memoized(refs.refs[op[1]], refs.ah[op[1]][op[2]]))
+        if k == "getmany":
+            ms = backend.get_mementos([refs.fwah(f, a) for f, a in op[1]])
+            return [None if m is None else [m.invocation_metadata.fn_reference_with_args.fn_reference.qualified_name,
+                                            m.invocation_metadata.fn_reference_with_args.arg_hash] for m in ms]
+        if k == "wmetad":  # metadata stored next to the data object
+            _, f, a, mk, mv = op
+            m = backend.get_memento(refs.fwah(f, a))
+            backend.write_metadata(refs.fwah(f, a), mk, mv.encode(),
+                                   store_with_content_key=(m.content_key if m is not None else None))
+            return None
         if k == "forget_call":
             backend.forget_call(refs.fwah(op[1], op[2]))
             return None
@@ -229,6 +243,9 @@ def answers_agree(op, expected, got, refs, vals):
             return expected == got
         return (got[1] == ResultType.from_object(val(vals, expected[1])).name
                 and got[2] == refs.qn[op[1]] and got[3] == refs.ah[op[1]][op[2]])
+    if k == "getmany":
+        want = [None if e is None else [refs.qn[e[0]], refs.ah[e[0]][e[1]]] for e in expected]
+        return got == want
     if k == "list_fns":
         return got == sorted(refs.qn[i] for i in expected)
     if k == "list_mems":
